@@ -7,7 +7,7 @@ import subprocess
 import sys
 
 from .. import boot
-from ..result import Result, h64
+from ..result import Result, h64, keep_going
 
 dbsim = None  # imported after boot.init()
 
@@ -353,7 +353,7 @@ def run_shard(spec):
         return res
     rng = random.Random(spec['seed'])
     n = 0
-    while res.elapsed() < spec['budget'] or n < 6:
+    while keep_going(res, spec) or n < 6:
         hseed = rng.getrandbits(48)
         bad, info = run_history(sim, hseed, res, thorough=spec['tier'] == 'thorough')
         n += 1
